@@ -105,7 +105,11 @@ func serve(b *built, q reqIn) {
 		}
 	}()
 	b.handler.ServeHTTP(rec, q.httpRequest())
-	emit("done", strconv.Itoa(rec.Code), short(rec.Header().Get("Content-Type")), rec.Body.String())
+	data := rec.Body.String()
+	if rec.Code != http.StatusOK {
+		data = "err"
+	}
+	emit("done", strconv.Itoa(rec.Code), short(rec.Header().Get("Content-Type")), data)
 }
 
 // execSched replays one TLC-generated interleaving: the hooks and the harness-owned
@@ -256,7 +260,7 @@ func randomValid(r *lcg, k int) reqIn {
 	ops := []string{"opA", "opB", "opC", "opD"}
 	med := []string{"json", "text"}
 	q := reqIn{Op: ops[r.Intn(4)], ID: fmt.Sprintf("i%d", k), Body: fmt.Sprintf("b%d", k),
-		Ctype: med[r.Intn(2)], Accept: med[r.Intn(2)], Cs: "-", Cu: "-"}
+		Ctype: med[r.Intn(2)], Accept: med[r.Intn(2)], Cs: "-", Cu: "-", Rt: "ok", Q: "ok", H: "ok"}
 	users := []string{"u1", "u2", "u3"}
 	switch q.Op {
 	case "opA", "opD":
